@@ -12,7 +12,7 @@ UV_EOF, UV_ENOBUFS = -4095, -105
 # keys of the two defects repaired by /repo commit 34f0ffa (kept only to name a regression)
 FIXED_IPC = "ipc_premature_eof_after_fd_message"
 FIXED_NONIPC = "pipe_premature_eof_after_fd_message_nonipc"
-HARNESS_ONLY = "WGHQUKMB"
+HARNESS_ONLY = "WGHQUKMBVYO"
 
 
 # --------------------------------------------------------------------------
@@ -92,7 +92,36 @@ def gen_case(rng, tcp=False):
         return "R=0"
 
     n = rng.randint(4, 22)
-    if shape < 0.15:
+    if shape < 0.14:
+        # the handle stays polled (POLLOUT, a big write nobody reads) while not reading - after UV_EOF,
+        # after uv_read_stop, after a read error - then the peer closes (reset: unread data) or hangs up
+        how = rng.choice(["eof", "eof", "stop", "error", "stop_in_cb", "never"])
+        if rng.random() < 0.3:
+            ops.append("V")
+        ops.append("w%d" % wsize())
+        if how == "eof":
+            ops.append("h"); shut = True
+        ops += [run_op() for _ in range(rng.randint(2, 5))]
+        if how == "stop":
+            ops.append("T")
+        elif how == "error":
+            script += ["p"] * rng.choice([0, 1, 2]) + ["e%d" % rng.choice([104, 5, 110])]
+            if "V" not in ops:
+                ops.insert(1, "V")          # after the error the stream is no longer writable
+            ops += ["w3", "R", "R"]
+        elif how == "stop_in_cb":
+            behs += [""] * rng.choice([0, 1, 2]) + ["T"]
+        elif how == "never":
+            ops[0] = "T"
+        if "V" not in ops:
+            ops.append("V")
+        ops += [rng.choice(["R", "w%d" % wsize() if not shut else "R", "R"]) for _ in range(rng.randint(0, 3))]
+        ops.append(rng.choice(["q", "q", "q", "h" if not shut else "q"]))
+        peer_open = False
+        ops += [run_op() for _ in range(rng.randint(2, 5))]
+        if rng.random() < 0.3:
+            ops += ["S%d" % rng.choice([1, 2, 3]), "R", "R"]
+    elif shape < 0.26:
         # data, close, then run to the end: the plain "everything then EOF" shape
         for _ in range(rng.randint(1, 4)):
             o = peer_op()
@@ -113,8 +142,10 @@ def gen_case(rng, tcp=False):
                 ops.append(run_op())
             elif r < 0.86:
                 ops.append("T")
-            elif r < 0.96:
+            elif r < 0.95:
                 ops.append("S%d" % rng.choice([1, 2, 3]))
+            elif r < 0.975:
+                ops.append("V")
             else:
                 ops.append("C")
     ops += ["R"] * rng.choice([1, 2, 3, 5])
@@ -184,6 +215,13 @@ FIXED = [
     "0 ; S1 w3 q R-1 R=16 R=8 R=4 R R ; ; 2 ; ",
     # connection reset: data first, then the error
     "0 ; S1 u3 w5 q R R R R ; ; 5 ; ",
+    # polled while not reading: UV_EOF / uv_read_stop / read error, a big write waits (POLLOUT), the peer
+    # closes with that data unread (reset): uv__stream_io runs uv__read with read_cb set, READING clear
+    "0 ; S1 w3 h R R R V R q R R R ; ; 64 ; ",
+    "1 ; S1 w3 h R R R V R q R R R S2 R ; ; 64 ; ",
+    "0 ; S1 w3 R R T V w5 q R R R ; ; 64 ; ",
+    "0 ; S1 V w3 R R w3 R R q R R R ; ; 64 ; p e104",
+    "0 ; S1 w3 h R R R V R=28 R=24 R=16 R=5 R ; ; 64 ; ",
     # 64 KiB buffers and more than one buffer of data
     "0 ; S1 w70000 w70000 q R R R R R ; ; 65536 ; ",
     "1 ; S1 w70000 g3 w70000 q R R R R R R ; ; 65536 ; ",
@@ -217,7 +255,7 @@ def monitor(case, line, ipc, tcp=False):
     pend_m = pend_k = False
     last_k = None
     fd_msgs = []
-    inbox = reset = False
+    inbox = reset = peer_closed = False
     eof_ctx = None
     for ev in trace:
         k, a = ev[0], ev[1:]
@@ -232,13 +270,17 @@ def monitor(case, line, ipc, tcp=False):
             written = int(a)
         elif k == "H":
             pass
-        elif k == "U":
+        elif k in "UV":
+            # tcp: data sent towards a peer that closes without reading it (before or after) resets
+            # the connection, and the reset discards what the peer had not yet transmitted, so "what
+            # the peer wrote" no longer bounds what can arrive; the peek at UV_EOF (B) still does
             inbox = True
+            reset = tcp and peer_closed
         elif k == "Q":
-            # tcp: closing with unread data resets the connection and discards what was not yet
-            # transmitted, so "what the peer wrote" no longer bounds what can arrive
-            if tcp and inbox:
-                reset = True
+            peer_closed = True
+            reset = tcp and inbox
+        elif k == "Y" or k == "O":
+            pass
         elif k == "B":
             # n bytes were still readable when the UV_EOF callback just before ran
             if eof_ctx is not None:
@@ -352,7 +394,11 @@ def model_input(case, impl_line, tcp):
     if len(parts) != 2:
         return None
     c = case.split(";")
-    polls = [t[1:] for t in parts[0].split() if t[0] == "P"]
+    toks = parts[0].split()
+    polls = [t[1:] for t in toks if t[0] == "P"]
+    wouts = [t[1:] for t in toks if t[0] == "O"]
+    if len(wouts) != len(polls):
+        return None
     ops, pi = [], 0
     for t in c[1].split():
         if t[0] in "STC":
@@ -360,7 +406,7 @@ def model_input(case, impl_line, tcp):
         elif t[0] == "R":
             if pi >= len(polls):
                 return None
-            ops.append("R" + polls[pi])
+            ops.append("R%s,%s" % (polls[pi], wouts[pi]))
             pi += 1
     if pi != len(polls):
         return None
@@ -464,14 +510,18 @@ def run_mode(chk, name, harness_cmd, model, cases, tcp=False):
 
 def shape_counts(traces):
     """how often the case splits of the proofs were exercised"""
-    d = {"polls_with_32_reads": 0, "synthetic_eof": 0, "real_eof": 0, "read_errors": 0, "enobufs": 0,
+    d = {"events_delivered_while_not_reading": 0, "polls_with_32_reads": 0, "synthetic_eof": 0, "real_eof": 0, "read_errors": 0, "enobufs": 0,
          "eagain_callbacks": 0, "calls_inside_callbacks": 0, "stale_poll_after_stop": 0,
          "exact_fill_reads": 0, "short_reads": 0, "bare_hup_or_err_polls": 0, "restart_after_eof": 0}
     for t in traces:
-        reads_in_poll, in_cb, reading, after_eof = 0, False, False, False
+        reads_in_poll, in_cb, reading, after_eof, wout = 0, False, False, False, False
         for e in t:
             k = e[0]
+            if k == "O":
+                wout = e[1:] == "1"
             if k == "P":
+                if wout and not reading and (int(e[1:]) & 28):
+                    d["events_delivered_while_not_reading"] += 1
                 if reads_in_poll >= 32:
                     d["polls_with_32_reads"] += 1
                 reads_in_poll, in_cb = 0, False
